@@ -453,7 +453,8 @@ theorem factoryGet_none_iff {f : Factory} (hnd : (f.map (·.id)).Nodup) (id : Na
       · intro hall e' he' hid; exact hall e' (List.mem_cons_of_mem _ he') hid
 
 /-- the regenerated factory: unique ids, and every curve satisfies `CurveHyp` once its field
-modulus is prime (hypothesis, validated per run by gmpy2.is_prime). -/
+modulus is prime (a premise here; it is the theorem `EcAll.fieldPrimes`, Proofs/EcAllPrimes.lean,
+from the Pratt certificates of Props/C11Primes — see `C10.curve_factory_hyp_certified`). -/
 theorem regenFactory_nodup : (regenFactory.map (·.id)).Nodup := by
   rw [regenFactory_eq]; decide +kernel
 
